@@ -38,19 +38,19 @@ def load_model_from_file(path, register=False):
         sys.path.insert(-1, str(path.parent))
         sys.dont_write_bytecode = True
         module = importlib.import_module(path.stem)
-    except ModuleNotFoundError:
-        raise ModelImportError(f"Could not import '{path}'!")
+    except Exception as exc:
+        raise ModelImportError(f"Could not import '{path}'!") from exc
     finally:
         # undo our path insertion
         sys.path.remove(str(path.parent))
         sys.dont_write_bytecode = False
 
-        mod = NaniteFitModel(module)
+    mod = NaniteFitModel(module)
 
-        if register:
-            register_model(module)
+    if register:
+        register_model(module)
 
-        return mod
+    return mod
 
 
 def register_model(module, *args):
